@@ -486,6 +486,10 @@ class TensorDict(TensorDictBase):
             if return_swap:
                 swap = module.copy()
                 module._param_td = getattr(self, "_param_td", self)
+                if hasattr(module, "_reset_params"):
+                    # a TensorDictParams exposes its leaves as parameters / buffers: the registry
+                    # must follow the tensordict it now wraps (and follow it back on exit)
+                    module._reset_params()
                 return swap
             else:
                 module.update(self)
